@@ -58,6 +58,10 @@ def apply(root, spec):
     if op == "replace_by_list":
         if n.parent is None or n.index is None:
             return root, note + ":skip"
+        if spec.get("pe"):
+            # the list may contain the node itself (splice neighbours in around it)
+            n.replace([_new(spec), n, _new(spec, 1)] if spec["flag"] else [n, _new(spec)])
+            return root, note + ":with-self"
         n.replace([_new(spec), _new(spec, 1)])
         return root, note
     if op == "pop":
@@ -93,6 +97,8 @@ def apply(root, spec):
             if not lst:
                 return root, note + ":skip"
             i = spec["idx"] % len(lst)
+            if spec.get("pe") and spec["new"] % 3 == 0:
+                i -= len(lst)  # the same position, counted from the end (negative index)
             value = None if (spec["flag"] and op == "set_index_overwrite") else _new(spec)
             n.set(k, value, index=i, overwrite=(op == "set_index_overwrite"))
         return root, note + ":" + k
